@@ -173,7 +173,19 @@ class Translator:
             raise Unsupported('pointer arithmetic on ' + str(base))
         raise Unsupported('pointer expression kind ' + k)
 
+    def assigned_in(self, n, decl_id):
+        """does the AST subtree write to (or take the address of) the declaration?"""
+        k = n.get('kind')
+        def refers(m):
+            while m.get('kind') in ('ParenExpr',): m = m['inner'][0]
+            return m.get('kind') == 'DeclRefExpr' and m['referencedDecl']['id'] == decl_id
+        if k in ('CompoundAssignOperator',) or (k == 'BinaryOperator' and n.get('opcode') == '='):
+            if refers(n['inner'][0]): return True
+        if k == 'UnaryOperator' and n.get('opcode') in ('++', '--', '&') and refers(n['inner'][0]): return True
+        return any(self.assigned_in(c, decl_id) for c in n.get('inner', []) if isinstance(c, dict))
+
     def read(self, lv):
+        if lv[0] == 'const': return lit(lv[1])
         if lv[0] == 'var': return var(lv[1])
         if lv[0] == 'elem': return idx(lv[1], lv[2])
         raise Unsupported('reading ' + str(lv))
@@ -291,8 +303,12 @@ class Translator:
                 e, t = self.expr(a, env, out)
                 pt = width_of(qt)
                 loc = '%s.%s' % (tag, p['name'])
-                out.append(('assign', loc, self.convert(e, t, pt)))
-                cenv[p['id']] = ('var', loc)
+                ce = fold(self.convert(e, t, pt))
+                if ce[0] == 'lit' and not self.assigned_in(body, p['id']):
+                    cenv[p['id']] = ('const', ce[1])      # literal argument, parameter never written: propagate
+                else:
+                    out.append(('assign', loc, ce))
+                    cenv[p['id']] = ('var', loc)
         retvar = '%s.ret' % tag
         rt = fd['type']['qualType'].split('(')[0].strip()
         cout = []
@@ -492,7 +508,8 @@ def fold(e):
         if a[0] == 'lit' and b[0] == 'lit':
             w = e[2]; m = 1 << w
             ops = {'add': lambda: (a[1] + b[1]) % m, 'sub': lambda: (a[1] - b[1]) % m, 'mul': lambda: (a[1] * b[1]) % m,
-                   'shl': lambda: (a[1] << b[1]) % m, 'shr': lambda: a[1] >> b[1], 'and': lambda: a[1] & b[1]}
+                   'shl': lambda: (a[1] << b[1]) % m, 'shr': lambda: a[1] >> b[1], 'and': lambda: a[1] & b[1],
+                   'or': lambda: a[1] | b[1], 'xor': lambda: a[1] ^ b[1]}
             if e[1] in ops: return lit(ops[e[1]]())
         return ('bin', e[1], e[2], a, b)
     if e[0] == 'cast':
@@ -506,8 +523,9 @@ def fold(e):
 def fold_indices(ss):
     def fe(e):
         if e[0] == 'idx': return ('idx', e[1], fold(fe(e[2])))
-        if e[0] == 'bin': return ('bin', e[1], e[2], fe(e[3]), fe(e[4]))
-        if e[0] in ('cast', 'not', 'neg'): return (e[0], e[1], fe(e[2]))
+        if e[0] == 'bin': return fold(('bin', e[1], e[2], fe(e[3]), fe(e[4])))
+        if e[0] == 'cast': return fold(('cast', e[1], fe(e[2])))
+        if e[0] in ('not', 'neg'): return (e[0], e[1], fe(e[2]))
         if e[0] == 'lnot': return ('lnot', fe(e[1]))
         if e[0] == 'cond': return ('cond',) + tuple(fe(c) for c in e[1:])
         return e
